@@ -548,8 +548,11 @@ def files_setup(eng):
     externals.EXTRA['pysam.AlignmentFile'] = bam
 
     def assign(e, f, a, k, n):
-        read, args = a[0], a[2]
+        read, table, args = a[0], a[1], a[2]
         e.ghost['assigned_with'].append((read.attrs['file'], dict(args.attrs['ref_lengths'])))
+        # both files hold a read of the same cell and feature: its count must add up over the files
+        row = e.getitem(table, ('cell',))
+        row["chrA"] = e.binop(_ast.Add(), e.getitem(row, "chrA"), 1)
         return 1
     eng.loader.call_hooks[Q + 'assignReads'] = assign
 
@@ -569,9 +572,10 @@ per_file_lengths = Contract(
     block=files_block,
     params={'args': files_args},
     setup=files_setup,
-    pre_state=lambda eng, fr: fr.env.update({'countTable': {}, 'joinFeatures': True, 'featureTags': ['DS'], 'sampleTags': ['SM'],
-                                             'blacklist_dic': None, 'assigned': 0}),
+    pre_state=lambda eng, fr: fr.env.update({'countTable': externals.DefaultDict(externals.col_counter_factory), 'joinFeatures': True,
+                                             'featureTags': ['DS'], 'sampleTags': ['SM'], 'blacklist_dic': None, 'assigned': 0}),
     ensures={
+        'counts_of_the_same_cell_add_up_over_the_files': 'countTable[("cell",)]["chrA"] == 2',
         'every_read_is_binned_with_the_contig_lengths_of_its_own_file':
             'len(GHOST["assigned_with"]) == 2 and all(rec[1]["chrA"] == REFLEN_OF(rec[0], "chrA") and '
             'rec[1]["chrB"] == REFLEN_OF(rec[0], "chrB") for rec in GHOST["assigned_with"])',
